@@ -254,16 +254,37 @@ func main() {
 		}
 	}
 	harness := filepath.Join(verifDir, "harness")
-	if b, err := os.ReadFile("/repo/go.sum"); err == nil {
+	repoDir := "/repo"
+	modfile := ""
+	if v := os.Getenv("VERIF_REPO"); v != "" && v != "/repo" {
+		// development aid: build against another checkout of the repository
+		// (registered commands never set this; they always use /repo)
+		repoDir = v
+		gm, err := os.ReadFile(filepath.Join(harness, "go.mod"))
+		if err != nil {
+			die(2, "cannot read go.mod: %v", err)
+		}
+		modfile = filepath.Join(tmp, "alt.mod")
+		_ = os.WriteFile(modfile, []byte(strings.Replace(string(gm), "=> /repo", "=> "+repoDir, 1)), 0o644)
+		if b, err := os.ReadFile(filepath.Join(repoDir, "go.sum")); err == nil {
+			_ = os.WriteFile(filepath.Join(tmp, "alt.sum"), b, 0o644)
+		}
+		fmt.Println("NOTE: building against", repoDir)
+	}
+	if b, err := os.ReadFile(filepath.Join(repoDir, "go.sum")); err == nil && modfile == "" {
 		_ = os.WriteFile(filepath.Join(harness, "go.sum"), b, 0o644)
 	}
 	build := func(race bool) string {
 		out := filepath.Join(tmp, "vworker")
-		a := []string{"build", "-tags", "verif", "-o"}
+		a := []string{"build", "-tags", "verif"}
+		if modfile != "" {
+			a = append(a, "-modfile="+modfile)
+		}
 		if race {
 			out += "-race"
-			a = []string{"build", "-tags", "verif", "-race", "-o"}
+			a = append(a, "-race")
 		}
+		a = append(a, "-o")
 		a = append(a, out, "./cmd/vworker")
 		cmd := exec.Command("go", a...)
 		cmd.Dir = harness
@@ -297,6 +318,9 @@ func main() {
 		}
 	}
 	replayDir := filepath.Join(verifDir, "replays")
+	if modfile != "" {
+		replayDir = filepath.Join(tmpRoot, "verif-dev-replays")
+	}
 	type job struct {
 		p      pass
 		shard  int
@@ -561,7 +585,7 @@ func main() {
 		"wall_s":      wall,
 		"violations":  len(newVios),
 	}
-	if replay == "" && prop != "SELF" {
+	if replay == "" && prop != "SELF" && modfile == "" {
 		eb, _ := json.MarshalIndent(ev, "", " ")
 		_ = os.MkdirAll(filepath.Join(verifDir, "evidence"), 0o755)
 		if err := os.WriteFile(filepath.Join(verifDir, "evidence", prop+".json"), append(eb, '\n'), 0o644); err != nil {
